@@ -104,6 +104,13 @@ FormSpec == FormInit /\ [][Next]_vars
 
 -------------------------------------------------------------------------------
 Conforms      == (pc = "done" /\ Definite(c)) => Allowed(c, out)
+\* selected records of different granularity: the weaker-but-definite statement of P2Bin.tla Part 2b
+ConformsMixed == (pc = "done" /\ DefiniteMixed(c)) => AllowedMixed(c, out)
+\* ... and every write of the record loop stays inside the pre-filled window there, too
+WindowStableMixed == (pc \in {"process", "close"} /\ Dev = {} /\ DefiniteMixed(c))
+                        => Len(s.file) = HdrLen(c.o) + RealFileLen(c.o, m)
+MeasureSoundMixed == (pc \in {"process", "close"} /\ Dev = {} /\ DefiniteMixed(c))
+                        => m.start = DStart(c.o, Items) /\ m.stop = DStop(c.o, Items) /\ m.maxgran = DGmax(c.o, Items)
 StepRunAgrees == pc = "done" => out = Run(Dev, c)
 ChunkListOK   == ChunksApart(s.used) /\ ~s.stale
 \* every write of the record loop stays inside the pre-filled window (with all repairs, in a definite case)
@@ -140,6 +147,16 @@ R_Auto     == {<<-1, -1>>}
 R_Phase    == {<<-1, -1>>, <<1, 8>>, <<2, 9>>, <<3, 10>>}
 L_Thin     == Lanes \ {"ALL"}
 R_Explicit == {<<0, 3>>}
+\* MIXED GRANULARITY (P2Bin_MC_mixed*.cfg, P2Bin_CoverMixed*.cfg): records of 1 / 4 units at 0, 1, 3, 6 in units of 1, 2
+\* (, 4) bytes; windows that start / end strictly inside a record of either unit, at a record start / end, before
+\* the first and behind the last record, automatic and half-automatic bounds
+R_Mixed    == {<<-1, -1>>, <<0, 7>>, <<1, 4>>, <<2, 8>>, <<4, 7>>, <<2, -1>>, <<-1, 5>>}
+R_Mixed3   == R_Mixed \cup {<<3, 6>>, <<5, 9>>, <<1, -1>>, <<-1, 2>>, <<0, 3>>}
+L_Mixed    == {"ALL", "ODD", "WORD1"}
+L_Mixed3   == {"ALL", "EVEN", "ODD", "BYTE0", "BYTE3", "WORD0", "WORD1"}
+H_Mixed    == {0, 2}
+R_MixedPost == {<<-1, -1>>, <<1, 4>>}
+H_MixedPost == {0, 2, -3}
 CS_One     == {<<81, 1>>}
 CS_Mixed   == {<<81, 1>>, <<97, 1>>, <<81, 2>>}
 \* header forms x families, kinds per family: short CODE, long CODE, long DATA (, long IO).  Families: one of each
